@@ -406,3 +406,12 @@ package scheduler
 //@   at[queuessilent] call scheduler.PartitionContext.addQueue#1: assert arg0 == pc && arg2 == pc.root && arg3 == silence
 //@   at[rulessilent] call placement.NewPlacementManager#1: assert arg2 == silence
 //@   ensures[dryrun] silence ==> ncalls(ugm.Manager.UpdateConfig) == 0
+
+// quota-change preemption is only triggered for partitions that have the feature enabled, on the root of that partition
+//@ spec abstract qpenabled(p *PartitionContext) bool
+//@ func (s *Scheduler) triggerQuotaPreemption()
+//@   props C08
+//@   sweep
+//@   mode nopanic=off
+//@   at[flag] call scheduler.PartitionContext.IsQuotaPreemptionEnabled#1 after: assume ret == qpenabled(arg0)
+//@   at[enabled] call objects.Queue.TryQuotaPreemption#1: assert arg0 == psc.root && qpenabled(psc)
